@@ -9,6 +9,7 @@ R3.4  rename plumbing: structure fn reads Meta.key_transform_with_load, unstruct
 R3.6  field names are de-duplicated soundly (test / rename until unused / record): distinct wire keys never share one
       Python field, so the Meta maps are bijections                                          [pattern shared with C20]
 R3.7  sibling agreement: _resolve_one_of and _resolve_any_of (two copies of one routine) return the same results
+R3.10 every Python type chosen for a string format encodes back to a JSON string (str or a leaf type with a text-producing unstructure hook)
 R3.9  the generated get_mapping() has an entry for every discriminator value of the spec (a conforming document with an aliased value decodes)  [= R14.5]
 R3.8  nullability written as a type array is read from the document node at every sibling site (never from IRSchema.type, a string)
 R3.5  recursion over field types: every field of every dataclass gets its nested types registered (no skip)
@@ -127,6 +128,7 @@ def run(repo: Repo, rep: Report, tier: str) -> None:
                       f"oneOf and anyOf are resolved by two copies of one routine, but they no longer return the same things (only oneOf: {only_a[:2]}; only anyOf: "
                       f"{only_b[:2]}): e.g. the optionality of a single-variant composition is kept by one spelling and lost by the other", a.loc())
 
+    cv.rule_string_formats(repo, rep, "R3.10")
     # ---------------------------------------------------------------- R3.9 every discriminator value the spec maps is in the generated dispatch table
     from rules._reuse import reuse as _reuse39
 
